@@ -11,6 +11,7 @@ import (
 
 	"github.com/inbucket/inbucket/v3/pkg/message"
 	"github.com/inbucket/inbucket/v3/pkg/storage"
+	"github.com/inbucket/inbucket/v3/pkg/verifhook"
 	"github.com/rs/zerolog/log"
 )
 
@@ -93,6 +94,7 @@ func (mb *mbox) removeMessage(id string) error {
 	}
 	// There are still messages in the index
 	log.Debug().Str("module", "storage").Str("path", msg.rawPath()).Msg("Deleting file")
+	verifhook.Crash("remove.raw.before-remove", msg.rawPath())
 	return os.Remove(msg.rawPath())
 }
 
@@ -160,10 +162,12 @@ func (mb *mbox) writeIndex() error {
 			return err
 		}
 		// Open index for writing
+		verifhook.Crash("index.before-create", mb.indexPath)
 		file, err := os.Create(mb.indexPath)
 		if err != nil {
 			return err
 		}
+		verifhook.Crash("index.created", mb.indexPath)
 		writer := bufio.NewWriter(file)
 		// Write each message and then flush
 		enc := gob.NewEncoder(writer)
@@ -177,15 +181,18 @@ func (mb *mbox) writeIndex() error {
 				return err
 			}
 		}
+		verifhook.Crash("index.encoded", mb.indexPath)
 		if err := writer.Flush(); err != nil {
 			_ = file.Close()
 			return err
 		}
+		verifhook.Crash("index.flushed", mb.indexPath)
 		if err := file.Close(); err != nil {
 			log.Error().Str("module", "storage").Str("path", mb.indexPath).Err(err).
 				Msg("Failed to close")
 			return err
 		}
+		verifhook.Crash("index.closed", mb.indexPath)
 	} else {
 		// No messages, delete index+maildir
 		log.Debug().Str("module", "storage").Str("path", mb.path).Msg("Removing mailbox")
@@ -197,6 +204,7 @@ func (mb *mbox) writeIndex() error {
 // createDir checks for the presence of the path for this mailbox, creates it if needed
 func (mb *mbox) createDir() error {
 	if _, err := os.Stat(mb.path); err != nil {
+		verifhook.Crash("mkdir.before", mb.path)
 		if err := os.MkdirAll(mb.path, 0770); err != nil {
 			log.Error().Str("module", "storage").Str("path", mb.path).Err(err).
 				Msg("Failed to create directory")
@@ -209,9 +217,11 @@ func (mb *mbox) createDir() error {
 // removeDir removes the mailbox, plus empty higher level directories
 func (mb *mbox) removeDir() error {
 	// remove mailbox dir, including index file
+	verifhook.Crash("rmdir.before-removeall", mb.path)
 	if err := os.RemoveAll(mb.path); err != nil {
 		return err
 	}
+	verifhook.Crash("rmdir.removed", mb.path)
 	// remove parents if empty
 	dir := filepath.Dir(mb.path)
 	if removeDirIfEmpty(dir) {
